@@ -19,7 +19,9 @@ def gen(rng, sc, n):
 def _gen(rng, sc, n):
     lines, meta = [], {}
     for i in range(n):
-        mt, items = cc.gen_message(rng, sc, p_opt=rng.choice((0.0, 0.3, 0.8)), with_data=rng.random() < 0.3)
+        # capped: the re-encoding of a permissively decoded message repeats body and trailer (finding permissive-section-handover), and an
+        # over-long re-encoding would run into the encoder's buffer (C03 finding encode-buffer-overflow), which is not C05's subject
+        mt, items = cc.gen_message_capped(rng, sc, max_payload=2400, p_opt=rng.choice((0.0, 0.3, 0.8)), with_data=rng.random() < 0.3)
         wire, toks = cc.ref_encode(sc, mt, items)
         toks = [(b'%d' % t, v) for t, v in toks]
         body_tr = [m for m in sc['msgs'] if m[0] == mt][0][1]
